@@ -1294,6 +1294,12 @@ class Range(NumericTuple):
 
     def _validate(self, val):
         super()._validate(val)
+        if val is not None and len(val) != 2:
+            # (the length of a Tuple follows its declared default)
+            raise ValueError(
+                f"{_validate_error_prefix(self, 'length')} is not "
+                f"of the correct length ({len(val)} instead of 2)."
+            )
         self._validate_bounds(val, self.bounds, self.inclusive_bounds, 'bound')
         self._validate_bounds(val, self.softbounds, self.inclusive_bounds, 'softbound')
         self._validate_step(val, self.step)
